@@ -4,6 +4,7 @@ import ObiVerif.Props.C03
 import ObiVerif.Props.C04
 import ObiVerif.Lemmas.Command
 import ObiVerif.Lemmas.CommandShapes
+import ObiVerif.Props.C06
 /-!
 # C05 — command output is a function of input and options, not of parallelism (property theorems)
 
@@ -264,6 +265,22 @@ theorem groupby_command_config_independent (key : Rec → Nat) (g : List Rec →
   rw [hin] at a
   exact a.trans b.symm
 
+/-- **obiuniq, with its real per-class function** (the model of C06: `Uniq.uniq` = chunks by hash, sequence stage,
+category stages, `BioSequenceSlice.Merge`): `batches` = the input as the reader cut it, `arr` = ANY arrival order of
+those batches at `ISequenceChunk` (so: any parse schedule), `h`, `h'` = any chunk functions (any `--chunk-count`).
+Every record of one run has an observably equal record (sequence, categories, count, requested merged maps, kept
+attributes — not the identifier) in the other; the statement is symmetric in the two runs.  Instance of the
+group-by shape for which the order-freeness hypothesis `hg` is a theorem (`ObiVerif.Props.C06.uniq_perm`). -/
+theorem obiuniq_arrival_independent (h h' : ObiVerif.Uniq.Seq → Nat) (o : ObiVerif.Uniq.Opts)
+    (batches arr : List (List ObiVerif.Uniq.Rec)) (harr : arr.Perm batches)
+    (ok : ObiVerif.Uniq.InputOK o batches.flatten) :
+    (∀ out ∈ ObiVerif.Uniq.uniq h o batches.flatten, ∃ out' ∈ ObiVerif.Uniq.uniq h' o arr.flatten,
+        ObiVerif.Props.C06.ObsEq o out out') ∧
+    (∀ out ∈ ObiVerif.Uniq.uniq h' o arr.flatten, ∃ out' ∈ ObiVerif.Uniq.uniq h o batches.flatten,
+        ObiVerif.Props.C06.ObsEq o out out') :=
+  ⟨ObiVerif.Props.C06.uniq_perm h h' o batches.flatten arr.flatten harr.flatten ok,
+   ObiVerif.Props.C06.uniq_perm h' h o arr.flatten batches.flatten harr.symm.flatten (ok.perm harr.flatten)⟩
+
 /-- **Load in batch order then a function of the whole data set** (obiclean with `SortBatches().Load()`): the
 bytes are `G` of the processed input in input order — for every `G`, order-sensitive ones included -/
 theorem loaded_command_deterministic (G : List Rec → Command.Bytes) (f : Rec → List Rec)
@@ -374,6 +391,16 @@ example : (groupOutputs (fun r => r % 2) (fun l => [l.sum.toUInt8]) (Iter.flatte
       exact Nat.mod_two_eq_zero_or_one r
   exact groupby_command_deterministic _ _ (fun _ _ h => by rw [h.sum_nat]) exV 3 _ (by decide) _ _ (by decide) (by decide)
     (fun k => by rw [← hmem k]; simp [or_comm]) (fun k => by rw [← hmem k]; simp)
+
+/-- non-vacuity (test on a sample): the input of the C06 example cut in two batches that arrive in the other order,
+two different chunk functions -/
+example : ∀ out ∈ ObiVerif.Uniq.uniq (fun s => s.length % 2) ObiVerif.Props.C06.exO ([ObiVerif.Props.C06.exIn.take 3, ObiVerif.Props.C06.exIn.drop 3].flatten),
+    ∃ out' ∈ ObiVerif.Uniq.uniq (fun _ => 0) ObiVerif.Props.C06.exO ([ObiVerif.Props.C06.exIn.drop 3, ObiVerif.Props.C06.exIn.take 3].flatten),
+      ObiVerif.Props.C06.ObsEq ObiVerif.Props.C06.exO out out' := by
+  refine (obiuniq_arrival_independent _ _ _ _ _ (List.Perm.swap _ _ []) ?_).1
+  refine ⟨by decide, ?_, ?_⟩
+  · intro r hr; simp [ObiVerif.Props.C06.exIn] at hr; rcases hr with rfl | rfl | rfl | rfl <;> decide
+  · intro r hr; simp [ObiVerif.Props.C06.exIn] at hr; rcases hr with rfl | rfl | rfl | rfl <;> simp [ObiVerif.Uniq.Rec.WF]
 
 /-- non-vacuity (test on a sample): a worker that rejects odd records and doubles the others, 3 batches read in
 the order 1,0,2, pushed batches reversed -/
